@@ -108,6 +108,15 @@ impl Prop for C06 {
                 Err(_) => return,
             }
         }
+        // the same clauses on ONE store object whose limit is changed in place, ascending then descending:
+        // a store with limit k is a store with limit k, whatever its limit was before
+        let mut order: Vec<usize> = limits.clone();
+        order.extend(limits.iter().rev().skip(1));
+        let reused_from = limited.len();
+        match cx.build(l, &recs, Some(limits[0]), None) {
+            Ok(s) => limited.push((usize::MAX, s)),
+            Err(_) => return,
+        }
         cx.state();
         for q in &set.queries {
             // every record's own verdict
@@ -146,8 +155,16 @@ impl Prop for C06 {
                     });
                 }
             }
-            for (k, st) in limited.iter_mut() {
-                let k = *k;
+            // fresh store per limit, then the shared store stepped through `order`
+            let mut plan: Vec<(usize, usize)> = (0..reused_from).map(|i| (i, limited[i].0)).collect();
+            for &k in &order {
+                plan.push((reused_from, k));
+            }
+            for (si, k) in plan {
+                let st = &mut limited[si].1;
+                if si == reused_from {
+                    st.set_limit(k);
+                }
                 cx.eval();
                 let hits = match cx.search(st, q) {
                     Ok(h) => h,
